@@ -39,7 +39,7 @@ def check(ctx, rep):
             else:
                 rep.fail("T-ALL-implies-ANY", "range::BoundSet::allows_all|T-ALL-implies-ANY|%s" % r["key"],
                          "allows_all is true but allows_any is false", example=r["example"])
-    sizes = [(1, 1), (2, 1), (3, 1)] if not ctx.thorough else [(1, 1), (2, 1), (3, 1), (4, 1)]
+    sizes = [(1, 1), (2, 1), (3, 1)]   # |A|+1 generators: 4 is the largest exhaustive world set (2^15 worlds)
     set_table(ctx, rep, prog, "allows_all", "E-SET-allows_all", 137,
               "Range::allows_all(A, B) with one alternative in B: true implies B inside union A", sizes=sizes)
     # "A.allows_any(B) is also true": Range::allows_any is exact (overlap) on concrete interval shapes, so it is true
